@@ -71,6 +71,11 @@ def build_cases(tier):
                lambda inp: ok([('i', ['5', '12'])])))
     C.append(T('other_goroutine_result', [Y], V + 'c := make(chan int, 1)\ngo func() {\n\tVerifYield()\n\tc <- a + b\n}()\nVerifYield()\nprintln("g", <-c)',
                lambda inp: ok([('g', ['(+ in_0 in_1)'])])))
+    # leads reported by a sub-agent while reading the unchanged compiler
+    C.append(T('ptr_method_on_named_nonstruct_local', [Y, 'type ctr int\nfunc (c *ctr) inc() { *c++ }\n'], V + 'var x ctr\nx.inc()\nVerifYield()\nx.inc()\np := &x\nVerifYield()\np.inc()\nprintln("x", int(x))',
+               lambda inp: ok([('x', ['3'])])))
+    C.append(T('panic_through_suspending_defer', [Y, '//go:noinline\nfunc pf(v int) int {\n\tdefer func() { VerifYield() }()\n\tif v != 12345 {\n\t\tpanic("p")\n\t}\n\treturn 1\n}\n//go:noinline\nfunc pg(v int) (r int) {\n\tdefer func() {\n\t\trecover()\n\t\tr = 5\n\t}()\n\tr = pf(v)\n\tprintln("after")\n\treturn r + 100\n}\n'], V + 'println("g", pg(a&255))',
+               lambda inp: ok([('g', ['5'])])))
     return C
 
 
